@@ -102,7 +102,7 @@ func (mgr *bindingManager) create(addr net.Addr) *binding {
 
 	b := &binding{
 		number:       mgr.assignChannelNumber(),
-		addr:         addr,
+		addr:         cloneAddr(addr),
 		mgr:          mgr,
 		_refreshedAt: time.Now(),
 	}
@@ -126,7 +126,7 @@ func (mgr *bindingManager) findOrCreate(addr net.Addr) *binding {
 
 	b := &binding{
 		number:       mgr.assignChannelNumber(),
-		addr:         addr,
+		addr:         cloneAddr(addr),
 		mgr:          mgr,
 		_refreshedAt: time.Now(),
 	}
@@ -202,4 +202,19 @@ func (mgr *bindingManager) all() []*binding {
 	}
 
 	return list
+}
+
+// cloneAddr copies an address the library keeps beyond the call that brought it in (a
+// binding, a permission), or hands out from its own state: the caller of WriteTo may reuse
+// its address object for the next destination, and the caller of ReadFrom may write to the
+// one it was given.
+func cloneAddr(addr net.Addr) net.Addr {
+	switch a := addr.(type) {
+	case *net.UDPAddr:
+		return &net.UDPAddr{IP: append(net.IP(nil), a.IP...), Port: a.Port, Zone: a.Zone}
+	case *net.TCPAddr:
+		return &net.TCPAddr{IP: append(net.IP(nil), a.IP...), Port: a.Port, Zone: a.Zone}
+	default:
+		return addr
+	}
 }
